@@ -2,23 +2,31 @@
 import itertools
 import gen_lg as g
 
-CLAIM = ("Proved in Coq over an interleaving model of WritersHandle::set_new_spec (micro-steps: take the write lock, replace the "
-         "specification, set the global max level, release the lock): for any number of threads, any number of calls per thread and "
-         "every schedule, once all calls have returned the active specification is one of the submitted ones as a whole and the gate "
-         "is the one computed for it (C12_consistent); the order of the micro-steps before the fix is refuted by a four-step schedule "
-         "(C12_old_order_refuted). Tied to the code by schedule points inside set_new_spec: the harness runs 2-3 real threads with "
-         "handle clones, a controller releases them point by point along EVERY interleaving of their points (quick: 2 threads x 1 "
-         "call, plus sampled 2x2 and 3x1), threads that block on the lock are detected, the order in which the points were really "
-         "passed is replayed through the extracted model, and final specification (enabled()-grid) and log::max_level() must agree. "
-         "Partial: the atomicity of each micro-step (RwLock, atomic max level) is assumed; the specfile watcher calls the same function "
-         "and is not exercised separately.")
+CLAIM = ('Proved in Coq over an interleaving model of WritersHandle::set_new_spec (micro-steps: take the write lock, replace the '
+         'specification, set the global max level, release the lock): for any number of threads, any number of calls per thread '
+         'and every schedule, once all calls have returned the active specification is one of the submitted ones as a whole and '
+         'the gate is the one computed for it (C12_consistent); the order of the micro-steps before the fix is refuted by a '
+         'four-step schedule (C12_old_order_refuted). Tied to the code by schedule points inside set_new_spec: the harness runs '
+         '2-3 real threads with handle clones, a controller releases them point by point along EVERY interleaving of their '
+         'points (quick: 2 threads x 1 call, plus sampled 2x2 and 3x1), threads that block on the lock are detected, the order '
+         'in which the points were really passed is replayed through the extracted model, and final specification '
+         '(enabled()-grid) and log::max_level() must agree. push_temp_spec / pop_temp_spec, which the property names as well, '
+         'are exercised on the implementation only (a pop submits whatever the push found in force, so which specification it is '
+         'depends on the schedule): a push and a pop on one clone against a set_new_spec on another along every interleaving of '
+         'their points; there the oracle is the property itself on the final state - the enabled()-grid is that of one submitted '
+         '(or the initial) specification as a whole and the gate admits it. Partial: the interleaving model has set_new_spec '
+         'calls only; the atomicity of each micro-step (RwLock, atomic max level) is assumed; the specfile watcher calls the '
+         'same function and is not exercised separately. ')
 THEOREMS = ["C12_consistent", "C12_old_order_refuted"]
 TRUSTED = ["modelled, not verified: std::sync::RwLock (mutual exclusion of writers), log::set_max_level (atomic store); the controller "
            "detects a blocked thread by a timeout"]
 ASSUMPTIONS = ["each micro-step of the model is atomic in the implementation", "no additional writers in these runs (W = 0)"]
 RULE = ("threads with 1-2 set_new_spec calls each on clones of one LoggerHandle, specifications with different maximum levels and "
         "module sets; the controller schedule is an interleaving of the threads' release counts (3 points per call); quick enumerates "
-        "all 20 interleavings of 2x1 calls for two specification pairs and samples 2x2 and 3x1; non-trivial = the schedule lets one "
+        "all 20 interleavings of 2x1 calls for two specification pairs and samples 2x2 and 3x1; push_temp_spec / pop_temp_spec on one "
+        "clone against set_new_spec on another: all 84 interleavings of 6 + 3 points, and of the 9 + 3 ones (a call before the push) "
+        "those in which the other thread is inside its critical section early; for cases with push / pop the verdict is the property "
+        "on the final state (filtering = one specification as a whole, gate admits it); non-trivial = the schedule lets one "
         "thread pass a point while another is between its points; distinct = distinct case text")
 
 SPECS = ["error", "trace", "warn, a = debug", "off", "info, b = trace", "a = error"]
@@ -26,15 +34,15 @@ PROBES = ["a", "b", "zzz"]
 
 
 def interleavings(counts):
-    """all sequences over thread ids with the given multiplicities"""
-    items = []
-    for t, c in enumerate(counts):
-        items += [t] * c
-    seen = set()
-    for p in itertools.permutations(items):
-        if p not in seen:
-            seen.add(p)
-            yield "".join(map(str, p))
+    """all sequences over thread ids with the given multiplicities (in lexicographic order)"""
+    def go(left, prefix):
+        if not any(left):
+            yield prefix
+            return
+        for t, c in enumerate(left):
+            if c:
+                yield from go(left[:t] + [c - 1] + left[t + 1:], prefix + str(t))
+    yield from go(list(counts), "")
 
 
 def case(spec0, threads, sched):
@@ -43,13 +51,40 @@ def case(spec0, threads, sched):
                                      "|".join(",".join(h(c) for c in t) if t else "-" for t in threads), sched)
 
 
+def case_calls(spec0, threads, sched):
+    """threads: lists of calls "spec" (set_new_spec), ("U", spec) (push_temp_spec) or "O" (pop_temp_spec)"""
+    h = g.hx
+    def tok(c):
+        return "O" if c == "O" else ("U" + h(c[1]) if isinstance(c, tuple) else h(c))
+    return "conc %s %s ; %s ; %s" % (h(spec0), ",".join(h(p) for p in PROBES),
+                                     "|".join(",".join(tok(c) for c in t) if t else "-" for t in threads), sched)
+
+
+def stack_cases(rng, tier):
+    """push / pop on one clone against set_new_spec on another: every interleaving of the 6 + 3 schedule points"""
+    out = []
+    for pushed, other in (("warn", "trace, a::b = debug"), ("trace", "error"), ("off", "info, a = trace"))[:2 if tier == "quick" else 3]:
+        for s in interleavings([6, 3]):
+            out.append(case_calls("info", [[("U", pushed), "O"], [other]], s))
+    # (what a push reads before its own critical section is read when the thread arrives there: with a call before the push
+    #  that moment can fall between the steps of the other thread)
+    for pushed, other in (("warn", "trace, a::b = debug"), ("debug", "error")):
+        all93 = list(interleavings([9, 3]))
+        # (quick: the schedules in which the other thread takes one step early - it is inside its critical section - and the rest
+        #  late, plus a random handful; thorough: all 220)
+        early = [x for x in all93 if x.index("1") <= 2 and x.index("1", x.index("1") + 1) >= 6]
+        for s in (all93 if tier != "quick" else early + rng.sample(all93, 10)):
+            out.append(case_calls("info", [["info", ("U", pushed), "O"], [other]], s))
+    return out
+
+
 def corpus():
     # the schedule on which the order before the fix fails: thread 0 between its points while thread 1 runs through
     return [case("info", [["error"], ["trace"]], "0111000"), case("info", [["error"], ["trace"]], "1000111")]
 
 
 def generate(rng, tier):
-    out = []
+    out = stack_cases(rng, tier)
     for a, b in (("error", "trace"), ("warn, a = debug", "off")):
         for s in interleavings([3, 3]):
             out.append(case("info", [[a], [b]], s))
